@@ -81,7 +81,7 @@ pub fn compare(r: &Req, imp: &str, model: &str) -> Option<bool> {
             return Some(false);
         }
     }
-    let mode = crate::cmp::Mode { rel: r.f64("tol").max(1e-9), int_out: false };
+    let mode = crate::cmp::Mode { rel: r.f64("tol").max(1e-9), int_out: false, null_is_zero: false };
     let m = model.split(';').next().unwrap_or("");
     Some(crate::cmp::line_eq(a, m, mode) && crate::cmp::line_eq(b, m, mode))
 }
